@@ -171,6 +171,8 @@ class Evaluator:
             return const_cell(v)
         if isinstance(node, A.Identifier):
             return self.lookup(node, rel, row)
+        if isinstance(node, A.TypeCast) and str(node.type_name).lower() in ('int', 'integer', 'bigint', 'int8', 'signed'):
+            return self.expr(node.arg, rel, row, group)      # the value domain is the integers: a cast to an integer type is the identity
         if isinstance(node, A.Parameter) and isinstance(node.value, str) is False and hasattr(node.value, 'step_num'):
             # a step result used as a scalar: the value of its single row / column (NULL when empty)
             sub = self.extra.get('result_%s' % node.value.step_num)
